@@ -4,6 +4,7 @@
   the focus_nodes filter and the abort_on_first breaks.
 -/
 import PyshaclModel.Core
+import PyshaclModel.SparqlGlue
 import PyshaclModel.Generated.Caps
 namespace Pyshacl
 
@@ -87,6 +88,10 @@ structure Env where
   dg : Graph
   shapes : List Shape
   rx : Regex
+  /-- opaque SPARQL engine: solutions of the query of constraint node `c` with `$this` pre-bound to `f` -/
+  sq : Term → Term → Option (List Sol) := fun _ _ => none
+  /-- template descriptor of the query text of a constraint node -/
+  sqInfo : Term → Option SparqlTemplate := fun _ => none
 
 structure Ctx extends Env where
   o : Opts
@@ -377,7 +382,32 @@ def evalConstraint (c : Env) (rec : Rec) (s : Shape) (k : CKind) (fv : FV) (path
               | some m => if n < m then [mkResult s k f none (component := some shQualifiedMinCountCC)] else []
               | none => []
             ofResults (r1 ++ r2)
-  | .sparql => .error (.raw "model:sparql-constraint-not-in-this-op")
+  | .sparql =>
+    foldOut (dedup (objs shSparql)) fun cn =>
+      match dedup (sg.objects cn shSelect) with
+      | [.lit sel] =>
+        if !isStrVal sel then .error .constraintLoad else
+        let msgs := dedup (sg.objects cn shMessage)
+        if (match msgs.head? with | some (.lit m) => !isStrVal m | some _ => true | none => false) then .error .constraintLoad else
+        let deact := match (dedup (sg.objects cn shDeactivated)).head? with
+          | some (.lit d) => (match d.val with | .bool b => some b | _ => none)
+          | some _ => none
+          | none => some false
+        (match deact with
+          | none => .error .constraintLoad
+          | some true => .ok (true, [])
+          | some false =>
+            foldOut fv fun (f, _) =>
+              match c.sqInfo cn with
+              | none => .error (.raw "sparql-template-miss")
+              | some t =>
+                if checkInvalid t ["this", "shapesGraph", "currentShape"] then .error .validationFailure else
+                if t.usesPath ∧ !s.isProp then .error (.runtime "") else
+                if t.usesShapesGraph then .error .notImplemented else
+                match c.sq cn f with
+                | none => .error (.raw "sparql-table-miss")
+                | some sols => ofResults (sparqlResults s cn msgs f sols))
+      | _ => .error .constraintLoad
   | .expression => .error (.raw "model:expression-not-in-this-op")
 
 /-- components of a shape in the order their parameters are met, each once -/
@@ -461,14 +491,15 @@ def validateAll (c : Ctx) (shapes : List Shape) (focus : Option (List Term)) : O
 
 /-- `validate()` on prepared graphs: shapes harvest, then `Validator.run`'s loop.
     `focus` / `useShapes` are the expanded `focus_nodes` / `use_shapes` options ([] = not given). -/
-def runValidate (o : Opts) (sg dg : Graph) (rx : Regex) (focus useShapes : List Term) : Out :=
+def runValidate (o : Opts) (sg dg : Graph) (rx : Regex) (focus useShapes : List Term)
+    (sq : Term → Term → Option (List Sol) := fun _ _ => none) (sqInfo : Term → Option SparqlTemplate := fun _ => none) : Out :=
   match useShapes with
   | [] =>
     match buildShapes sg with
     | .error e => .error e
     | .ok shapes =>
       let o' := { o with focusNodes := if focus = [] then none else some focus }
-      validateAll ⟨⟨sg, dg, shapes, rx⟩, o'⟩ shapes none
+      validateAll ⟨⟨sg, dg, shapes, rx, sq, sqInfo⟩, o'⟩ shapes none
   | _ =>
     match buildShapesFromList sg useShapes with
     | .error e => .error e
@@ -478,7 +509,7 @@ def runValidate (o : Opts) (sg dg : Graph) (rx : Regex) (focus useShapes : List 
           | none => .error (Failure.raw "KeyError")) useShapes with
       | .error e => .error e
       | .ok selected =>
-        if focus = [] then validateAll ⟨⟨sg, dg, shapes, rx⟩, o⟩ selected none
-        else validateAll ⟨⟨sg, dg, shapes, rx⟩, o⟩ selected (some focus)
+        if focus = [] then validateAll ⟨⟨sg, dg, shapes, rx, sq, sqInfo⟩, o⟩ selected none
+        else validateAll ⟨⟨sg, dg, shapes, rx, sq, sqInfo⟩, o⟩ selected (some focus)
 
 end Pyshacl
